@@ -352,6 +352,22 @@ func (p *parser) processDeclarations(rules []css_ast.Rule, composesContext *comp
 			if p.options.minifySyntax {
 				borderRadius.mangleCorner(rewrittenRules, decl, p.options.minifyWhitespace, borderRadiusBottomLeft)
 			}
+
+		default:
+			// Logical properties such as "margin-block-start" or "inset-inline" set
+			// a side that depends on the writing mode, so the physical longhands
+			// around them must not be merged across them
+			if p.options.minifySyntax {
+				if strings.HasPrefix(decl.KeyText, "margin-") {
+					margin.sides = [4]boxSide{}
+				} else if strings.HasPrefix(decl.KeyText, "padding-") {
+					padding.sides = [4]boxSide{}
+				} else if strings.HasPrefix(decl.KeyText, "inset-") {
+					inset.sides = [4]boxSide{}
+				} else if strings.HasPrefix(decl.KeyText, "border-") && strings.HasSuffix(decl.KeyText, "-radius") {
+					borderRadius.corners = [4]borderRadiusCorner{}
+				}
+			}
 		}
 
 		if prefixes, ok := p.options.cssPrefixData[decl.Key]; ok {
